@@ -390,4 +390,37 @@ PROPS = {
             sub("anam", "c05_masked", 1500, 40000, qw=1, tw=2),
             sub("vario_grid", "c05_masked", 1000, 25000, qw=1, tw=2),
         ]),
+    "C04": dict(
+        level="exploration",
+        rule=("seven differential pairs on rapidcheck-generated inputs (shared kriging case generator: 1-3D, 1-3 variables, 1-4 structures incl. nugget and "
+              "intrinsic, rotated anisotropy, NA patterns, selections, measurement error): (1) evalCovMatrixOptim / SymmetricOptim vs evalCovMatrix / Symmetric "
+              "(db2 variants, ivar0/jvar0, nbgh subsets, CovCalcMode variants incl. active-structure lists); (2) kriging unique vs moving neighbourhood containing "
+              "all samples; (3) xvalid in unique neighbourhood vs explicit leave-one-out re-kriging; (4) migrate with ball tree vs exhaustive search and NeighMoving "
+              "ball search on/off where the property's precondition holds (ties removed by construction); (5) block kriging with one discretisation point vs point "
+              "kriging (estimate, weights, varz); (6) collocated cokriging vs cokriging with the collocated datum added; (7) KrigingCalcul primal / dual / lambda / "
+              "Bayes / collocated (+ lazy-cache getter orders) / xvalid-unique vs kriging, kribayes, xvalid and the dense oracle; tolerances 1e-10 relative for plain "
+              "matrices, kappa-scaled for solves (kappa>1e10 inconclusive); non-trivial = the fast path is really taken and the case has a selection, heterotopy, "
+              ">=2 structures or rotated anisotropy; distinct = hash of (pair, dimension, sizes, options, structure list)"),
+        assumptions=["block kriging with ndiscs=1: stdev is not compared with point kriging (sigma00 of a block is estimated with a second randomised point set by documented design)",
+                     "ball search compared only where the candidate restriction is provably harmless (the property's precondition)",
+                     "xvalid: nvar = 1 (library restriction); samples with undefined external drift are not compared",
+                     "KrigingCalcul is driven on stationary models without measurement error; the Bayes reference is used for constant mean, monovariate cases",
+                     "models restricted to mathematically valid structures"],
+        subs=[
+            sub("covmat_rect", "c04_fastpaths", 5000, 400000, qw=1, tw=2),
+            sub("covmat_sym", "c04_fastpaths", 5000, 400000, qw=1, tw=2),
+            sub("unique_vs_moving", "c04_fastpaths", 2400, 150000, qw=2, tw=4),
+            sub("xvalid_unique", "c04_fastpaths", 1200, 80000, qw=2, tw=4),
+            sub("migrate_ball", "c04_fastpaths", 5000, 400000, qw=1, tw=2),
+            sub("neigh_ball", "c04_fastpaths", 5000, 400000, qw=1, tw=2),
+            sub("block1_vs_point", "c04_fastpaths", 1200, 80000, qw=2, tw=4),
+            sub("colcok_vs_added", "c04_fastpaths", 1400, 80000, qw=2, tw=4),
+            sub("kcalc_primal", "c04_fastpaths", 3000, 150000, qw=1, tw=2),
+            sub("kcalc_dual", "c04_fastpaths", 3000, 150000, qw=1, tw=2),
+            sub("kcalc_lambda", "c04_fastpaths", 1500, 40000, qw=1, tw=2),
+            sub("kcalc_bayes", "c04_fastpaths", 3000, 150000, qw=1, tw=2),
+            sub("kcalc_colcok", "c04_fastpaths", 2000, 80000, qw=1, tw=2),
+            sub("kcalc_colcok_cache", "c04_fastpaths", 2000, 80000, qw=1, tw=2),
+            sub("kcalc_xvalid", "c04_fastpaths", 3000, 150000, qw=1, tw=2),
+        ]),
 }
